@@ -25,6 +25,8 @@ PG_MODEL = ["gen/Consts.v", "model/Bytes.v", "model/Errors.v", "model/PgTx.v", "
 
 DB_MODEL = ["gen/Consts.v", "model/Bytes.v", "model/Errors.v", "model/DbKey.v", "model/DbModel.v", "corr/CorrBase.v", "corr/DbCorr.v"]
 
+RENDER_MODEL = ["model/Bytes.v", "model/Errors.v", "model/CacheModel.v", "model/RenderModel.v", "corr/CorrBase.v", "corr/RenderCorr.v"]
+
 PROPS = {
     "C09": {
         "prop_file": "props/C09.v",
@@ -160,5 +162,37 @@ PROPS = {
                 "values are unique per Put so that the monitor can name the write a returned value came from",
         "assumptions": ["same as C10", "operations whose file paths would leave the scratch root are dropped from the history before it is run (none was in the quick/thorough runs)"],
         "widen_n": 600,
+    },
+    "C02": {
+        "prop_file": "props/C02.v",
+        "files": ["proofs/BytesProofs.v", "proofs/RenderProofs.v", "props/C02.v"],
+        "model_files": RENDER_MODEL,
+        "drivers": [{"name": "sink", "n_quick": 100, "n_thorough": 600},
+                    {"name": "render", "n_quick": 250, "n_thorough": 4000}],
+        "rule": "sink: the private joinSink (VerifJoinSink) + Sizer.GetAt on 0-12 generated rows of length 0-20 (two thirds without empty rows, trailing-empty rows, "
+                "NUL bytes rarely), 3 (thorough: 8) values of `remaining` per row list from 0..80 biased to the break band, 6 label-size pairs, GetAt for every idx 0..count+1; "
+                "thorough adds the exhaustive sweep rows in {'',a,bb,cccc}^<=4 x remaining 0..40. "
+                "render: a real render.Page over a real cache.Cache and a MenuResource (or DbResource over a mem db) with generated templates (literals + one placeholder per mapped symbol), "
+                "0-3 mapped symbols with/without a zero-size sink of 1-9 rows, 0-4 menu items, MSINK, browse labels (sometimes resolved to a different text), separators, error prefix, "
+                "sizes biased to the band template+menu+1..k rows (also 1..300, 1..20, no sizer, NewSizer(0)); 70% walks (Render idx 0,1,2,.. each on a FRESH page as the VM builds it, until two "
+                "consecutive failures), 30% operation sequences on ONE page object (Render twice, Render/Reset/Map/Put/Render); every fifth case adversarial (no menu, sizer attached late, "
+                "failing template/label lookups, unmapped placeholder, sink mentioned twice, second zero-size symbol, browse entries unavailable, unknown symbol); "
+                "compared after every operation: outcome class, output bytes, sizer cursors and sink, Menu.String(), Page.Val on probe keys, Page.Usage, a RenderTemplate probe (error prefix, extra), "
+                "and Menu.Render(0) at the end of the run (items left); non-trivial = at least one Ok render / at least 2 rows; distinct by case term",
+        "assumptions": ["Go text/template is modelled for literal text and {{.name}} placeholders with missingkey=error only; templates, error prefixes and labels containing '{{' otherwise are outside the model (never generated)",
+                        "C02 monitor domain: walk cases on a VM-shaped page (menu attached, sizer attached before the Maps, size > 0, both browse entries configured, non-empty separator), template resolves and mentions the sink exactly once, labels resolve, page 0 renders",
+                        "theorem hypotheses len vs < 2^16 (uint16 page count), total sink size < 2^32 (uint32 cursors), remaining < 2^31 in budget_ok, len out < 2^32 in C01_render_fits: fixed-width ranges of the code, not findings",
+                        "Go map iteration order: the model iterates association lists in order; order-independent when at most one mapped symbol has reserved size 0 (Page.Map enforces it)"],
+        "widen_n": 1500,
+    },
+    "C01": {   # page-level half only; engine-level theorems/driver to be added by main
+        "prop_file": "props/C01page.v",
+        "files": ["proofs/BytesProofs.v", "proofs/RenderProofs.v", "props/C01page.v"],
+        "model_files": RENDER_MODEL,
+        "drivers": [{"name": "render", "n_quick": 250, "n_thorough": 4000}],
+        "rule": "same render cases as C02 with the C01 monitor: every Ok output of every Render (walks and operation sequences) is at most `size` bytes; on the first render of a fresh page the output "
+                "decodes as template-before-sink ++ X ++ template-after-sink ++ menu with X a run of WHOLE sink rows (nothing cut), or the whole value when no sizer is attached",
+        "assumptions": ["len out < 2^32 (Sizer.Check compares uint32(len(s)))"],
+        "widen_n": 1500,
     },
 }
